@@ -1,0 +1,13 @@
+//go:build verif
+
+package utreexo
+
+// VerifHook, when set, is called at named points inside MapPollard critical sections so
+// that a verification harness can suspend a writer in the middle of a block.
+var VerifHook func(site string)
+
+func verifPoint(site string) {
+	if h := VerifHook; h != nil {
+		h(site)
+	}
+}
